@@ -38,6 +38,10 @@ impl Authority {
     pub uninterp spec fn text(&self) -> Seq<char>;
     #[verifier::external_body]
     pub fn as_str(&self) -> (r: &str) ensures r@ == self.text() { unimplemented!() }
+    /// the host WITHOUT the port (http::uri::Authority::host)
+    pub uninterp spec fn host_text(&self) -> Seq<char>;
+    #[verifier::external_body]
+    pub fn host(&self) -> (r: &str) ensures r@ == self.host_text() { unimplemented!() }
 }
 pub struct Uri { pub o: u64 }
 impl Uri {
